@@ -3,8 +3,8 @@ import collections, glob, os, random
 from vlib import core, corr
 
 AREA = "C14"
-MODULES = ["TinsModel.Props.C14"]
-AUDIT = "Audit/C14.lean"
+MODULES = ["TinsModel.Props.C14", "TinsModel.Props.Limits.C14"]   # + the constants / limits tied to the source (translator/gen_limits.py)
+AUDIT = ["Audit/C14.lean", "Audit/LimitsC14.lean"]
 LEVEL = "proof"
 HARNESS = "c14_match"
 HARNESS_EXTRA = ("-fno-access-control",)      # only for sizeof() of the private header structs in the `layout` op
@@ -516,6 +516,8 @@ def spec_distribution(chk, exe_ops, impl):
 
 
 def run(chk):
+    from translator import gen_limits
+    gen_limits.main([])          # Gen/Limits.lean: constants and limits read from the current source
     problems = chk.prove(MODULES, AUDIT, want_leanchecker=(chk.tier == "thorough"))
     exe, err = core.build_harness(HARNESS, extra=HARNESS_EXTRA)
     if exe is None:
